@@ -186,8 +186,9 @@ impl<'store> Transposable<'store> for ResultTextSelectionSet<'store> {
                                 .expect("intersection offset must be valid"); //the relative offset will be used to select target fragments later
                             let source_offset: Offset = intersection.into();
                             if let Some(remainder) = remainder {
-                                if remainder.begin() < intersection.begin() {
-                                    //not a valid intersection (this fragment does not hold the begin of the text selection), skip to the next fragment
+                                if remainder.begin() <= intersection.begin() {
+                                    //not a valid intersection (this fragment does not hold the begin of the text selection,
+                                    //or it is a zero-width fragment that consumes nothing of it), skip to the next fragment
                                     if config.debug {
                                         eprintln!("[stam transpose] remainder preceeds intersection, bailing out...");
                                     }
